@@ -1031,7 +1031,11 @@ func (cl *collector) calleeResult(call *ssa.Call, callee *ssa.Function, resultId
 }
 
 // collect builds the closed fact set holding just before instruction q.
-func (p *prover) collect(q ssa.Instruction) *collector {
+func (p *prover) collect(q ssa.Instruction) *collector { return p.collectEdge(q, nil) }
+
+// collectEdge: facts holding on the edge from q's block to block `to` when q is the branch that
+// ends its block (to == nil: just before q).
+func (p *prover) collectEdge(q ssa.Instruction, to *ssa.BasicBlock) *collector {
 	cl := &collector{p: p, f: newFactSet(), q: q, seen: map[ssa.Value]bool{}, seenLen: map[ssa.Value]bool{}, nilErr: map[ssa.Value]bool{}, budget: 400}
 	conds := condsAt(q.Block())
 	// first pass: nil-error knowledge (needed by conditional post-conditions)
@@ -1051,6 +1055,9 @@ func (p *prover) collect(q ssa.Instruction) *collector {
 	// conds were added before definitional facts of later-discovered values; run a second pass so
 	// that conditional post-conditions see nilErr.
 	cl.seen, cl.seenLen = map[ssa.Value]bool{}, map[ssa.Value]bool{}
+	if ifi, ok := q.(*ssa.If); ok && to != nil && q.Block().Succs[0] != q.Block().Succs[1] {
+		conds = append(conds, Cond{ifi.Cond, q.Block().Succs[0] == to, ifi})
+	}
 	for _, c := range conds {
 		cl.addCond(c.V, c.Truth, 0)
 	}
@@ -1071,7 +1078,11 @@ func exitGuardsCached(fn *ssa.Function) []NegConj {
 // LE proves  a + ca <= b + cb  at q, where a/b are given as (value, isLen); a nil value is the
 // constant zero.
 func (p *prover) LE(a ssa.Value, aLen bool, ca int64, b ssa.Value, bLen bool, cb int64, q ssa.Instruction) bool {
-	cl := p.collect(q)
+	return p.leEdge(a, aLen, ca, b, bLen, cb, q, nil)
+}
+
+func (p *prover) leEdge(a ssa.Value, aLen bool, ca int64, b ssa.Value, bLen bool, cb int64, q ssa.Instruction, to *ssa.BasicBlock) bool {
+	cl := p.collectEdge(q, to)
 	ta, tb := term{}, term{}
 	if a != nil {
 		if aLen {
@@ -1101,12 +1112,12 @@ func (p *prover) LE(a ssa.Value, aLen bool, ca int64, b ssa.Value, bLen bool, cb
 	if p.depth < 3 {
 		if ph, ok := stripTermValue(a).(*ssa.Phi); ok && a != nil {
 			return p.perEdge(ph, func(e ssa.Value, last ssa.Instruction) bool {
-				return p.LE(e, aLen, ca+offsetOf(a), b, bLen, cb, last)
+				return p.leEdge(e, aLen, ca+offsetOf(a), b, bLen, cb, last, ph.Block())
 			}, q)
 		}
 		if ph, ok := stripTermValue(b).(*ssa.Phi); ok && b != nil {
 			return p.perEdge(ph, func(e ssa.Value, last ssa.Instruction) bool {
-				return p.LE(a, aLen, ca, e, bLen, cb+offsetOf(b), last)
+				return p.leEdge(a, aLen, ca, e, bLen, cb+offsetOf(b), last, ph.Block())
 			}, q)
 		}
 	}
